@@ -64,6 +64,15 @@ Proof.
     destruct Hn as [E|E]; rewrite E, name_eqb_refl in H; [|rewrite orb_true_r in H]; discriminate.
 Qed.
 
+Lemma no_alt_textb_sound : forall d a, no_alt_textb d a = true ->
+  forall tb co p, In tb d -> In co (tcols tb) -> targets (ctype co) a = true -> In p (cdata co) ->
+    forall s, snd p <> VStr s.
+Proof.
+  intros d a H tb co p Htb Hco Ht Hp s E. unfold no_alt_textb in H. rewrite forallb_forall in H.
+  specialize (H tb Htb). rewrite forallb_forall in H. specialize (H co Hco). rewrite Ht in H. cbn in H.
+  rewrite forallb_forall in H. specialize (H p Hp). rewrite E in H. discriminate.
+Qed.
+
 Lemma not_mem_pair : forall p l, mem_pair p l = false -> ~ In p l.
 Proof. intros p l H Hin. rewrite (mem_pair_in _ _ Hin) in H. discriminate. Qed.
 
